@@ -9,6 +9,7 @@ git -C /repo worktree add -q --detach $WT HEAD || exit 2
 export CARGO_TARGET_DIR=/tmp/confirm-target CARGO_NET_OFFLINE=true
 cd $WT
 if [ $# -ge 4 ]; then
+  mkdir -p "$(dirname "$WT/$2")"
   cp $SEED/demo.rs "$WT/$2"
   python3 - "$WT/$3" "$4" "${5:-demo}" <<'PY'
 import sys
